@@ -124,6 +124,28 @@ Proof.
 Qed.
 Print Assumptions C07_nested_case_regression.
 
+(* the class of seeded change C02-5, explicitly: a choice nested three deep,
+     choice c0 { case a { leaf da {default 1} container np { leaf dn {default 2} }
+                          choice c1 { case b { leaf db {default 3} choice c2 { case c { leaf x } case c' { leaf y {default 4} } } } } }
+                 case z { leaf q } }
+   with <x/> as the ONLY explicit node. Validation creates the implicit nodes of every enclosing case (da, np { dn }, db; not
+   y, not q), that tree is the normal form and a fixpoint; the tree with the explicit content alone - what a walk that stops
+   at the innermost case leaves - is NOT the normal form. (For arbitrary schemas and fresh / edited input this is
+   C07_implicit_exact_partial / _edited_partial: normalb asks, per schema node, for the defaults of every case on the chain
+   that holds an explicit node at any depth - Implicit.active.) *)
+Theorem C07_nested_case_outer_defaults :
+  exists sch f g,
+    schema_okb sch = true /\ chc_okb sch = true /\ Canon sch f /\ freshb sch f = true /\
+    (exists d, validate_all sch f = Ok (g, d)) /\ normalb sch g = true /\ validate_all sch g = Ok (g, []) /\
+    length g = 4%nat /\ normalb sch (strip g) = false.
+Proof.
+  exists w4_sch, w4_parsed, w4_valid.
+  split; [exact w4_f1|]. split; [exact w4_f2|]. split; [apply (proj1 (canonb_spec _ _ _)); exact w4_f3|].
+  split; [exact w4_f4|]. split; [exists w4_d0; exact w4_f5|]. split; [exact w4_f6|]. split; [exact w4_f7|].
+  split; [reflexivity|]. rewrite w4_f9. exact w4_f8.
+Qed.
+Print Assumptions C07_nested_case_outer_defaults.
+
 (* refuted in general (dflt-leaflist-partial): leaf-list ll { default x; default y } leaf z; <z>q</z> is
    validated (ll = x, y default), the instance x is freed; validation leaves ll = y (default-flagged) and reports no change *)
 Theorem C07_implicit_exact_refuted_leaflist :
